@@ -1,5 +1,5 @@
 use super::field_utils::{parse_name_and_address, parse_party_identifier};
-use super::swift_utils::{parse_bic, parse_max_length};
+use super::swift_utils::{parse_bic, parse_max_length, parse_swift_chars};
 use crate::errors::ParseError;
 use crate::traits::SwiftField;
 use serde::{Deserialize, Serialize};
@@ -108,13 +108,23 @@ impl SwiftField for Field54B {
 
         // Check for party identifier on first line
         if !lines.is_empty() && lines[0].starts_with('/') {
+            // /1!a/34x at the longest
+            parse_max_length(lines[0], 37, "Field54B party_identifier")?;
+            parse_swift_chars(lines[0], "Field54B party_identifier")?;
             party_identifier = Some(lines[0].to_string());
             line_idx = 1;
         }
 
         // Remaining line is location
-        if line_idx < lines.len() && !lines[line_idx].is_empty() {
+        if line_idx < lines.len() {
+            parse_swift_chars(lines[line_idx], "Field54B location")?;
             location = Some(parse_max_length(lines[line_idx], 35, "Field54B location")?);
+            line_idx += 1;
+        }
+        if line_idx < lines.len() {
+            return Err(ParseError::InvalidFormat {
+                message: "Field54B has more lines than party identifier and location".to_string(),
+            });
         }
 
         Ok(Field54B {
